@@ -468,6 +468,16 @@ def run(ctx):
     bad_rr = [c for c in rr if not any(c == a or c.startswith(a + "::{closure") for a in allowed_mm)]
     chk.ob("reset_ram-callers", not bad_rr and bool(rr), "the RAM is cleared only by the program loaders, never by a reset",
            p.need_type(BUS)["file"], "callers of Bus::reset_ram: %s" % rr, "who-may-call over the resolved call graph")
+    # the input registers set from outside are cleared by a master reset only, and a master reset is performed only by the
+    # program load and by an explicit request on the machine (the runner's scheduled resets and the reset key are CPU resets)
+    chain = ((BUS + "::master_reset", {"L::machine::raw::RawMachine::master_reset"}),
+             ("L::machine::raw::RawMachine::master_reset", {"L::machine::Machine::master_reset"}),
+             ("L::machine::Machine::master_reset", {"L::machine::Machine::load", "L::machine::Machine::load_raw"}))
+    for callee_, allowed_ in chain:
+        cs_ = sorted(b_ for b_, c2_ in cg.items() if callee_ in c2_ and "::tests::" not in b_)
+        chk.ob("master-reset-callers/%s" % callee_.rsplit("::", 2)[-2], set(cs_) <= allowed_ and bool(cs_),
+               "a master reset (which clears the input registers) is issued only by the program load", p.need_type(BUS)["file"],
+               "callers of %s: %s" % (callee_, cs_), "who-may-call over the resolved call graph")
     # reads are pure by type: &self and no interior mutability
     chk.ob("read/receiver", rb.locals[1]["ty"].startswith("&L::") or rb.locals[1]["ty"].startswith("&'"),
            "Bus::read takes &self", rb.loc(), rb.locals[1]["ty"])
